@@ -25,6 +25,7 @@ def dispatch (o : Oracle) (kind : String) (args : List String) (body : List (Lis
   match kind with
   | "writer" => Writer.session args body
   | "writer2" => Writer.session2 args body
+  | "writerf" => Writer.sessionF args body
   | "router" => Router.session o.engine args body
   | "ret" => Ret.session args body
   | "retseq" => Ret.seqSession args body
